@@ -599,62 +599,6 @@ Section SimpleOps.
   Qed.
 End SimpleOps.
 
-(* ---------- every sequence of covered operations ---------- *)
-
-(* the operations whose WF-preservation is proved (the others are tied by correspondence and checked by the oracle) *)
-Definition covered (o : op) : bool :=
-  match o with
-  | ONext | ONextN _ | OSkip | OCopy | OReplIdx _ | OMerge _ _ | OSwap | OClearOut => true
-  | _ => false
-  end.
-
-Lemma covered_step lo hi o b : covered o = true -> (level b =? 2) = false -> WF lo hi b = true -> pre o b = true ->
-  exists b', run_op o b = Ok b' /\ WF lo hi b' = true /\ (level b' =? 2) = false.
-Proof.
-  intros Hc Hl Hw Hp.
-  assert (G : forall r : res buffer, (exists b', r = Ok b' /\ WF lo hi b' = true /\ level b' = level b) ->
-              exists b', r = Ok b' /\ WF lo hi b' = true /\ (level b' =? 2) = false).
-  { intros r (b' & E & W & L). exists b'. rewrite L. auto. }
-  destruct o; try discriminate Hc; cbn [run_op]; apply G.
-  - apply next_glyph_wf; assumption.
-  - apply next_glyphs_wf; assumption.
-  - apply skip_glyph_wf; assumption.
-  - apply copy_glyph_wf; assumption.
-  - apply replace_glyph_index_wf; assumption.
-  - apply merge_clusters_wf; assumption.
-  - apply swap_buffers_wf; assumption.
-  - apply clear_output_wf; assumption.
-Qed.
-
-(* the preconditions hold along the run *)
-Fixpoint pres_hold (os : list op) (b : buffer) : Prop :=
-  match os with
-  | [] => True
-  | o :: r => pre o b = true /\ forall b', run_op o b = Ok b' -> pres_hold r b'
-  end.
-
-Lemma run_ops_cons o r b x : run_op o b = Ok x -> run_ops (o :: r) b = run_ops r x.
-Proof. intros E. unfold run_ops. cbn [fold_left bind]. rewrite E. reflexivity. Qed.
-
-Lemma buffer_ops_preserve_wf_lemma lo hi : forall os b,
-  forallb covered os = true -> (level b =? 2) = false -> WF lo hi b = true -> pres_hold os b ->
-  exists b', run_ops os b = Ok b' /\ WF lo hi b' = true.
-Proof.
-  induction os as [|o r IH]; intros b Hc Hl Hw Hp.
-  - exists b. split; [reflexivity|exact Hw].
-  - cbn [forallb] in Hc. apply andb_prop in Hc. destruct Hc as [Hco Hcr]. destruct Hp as [Hpo Hpr].
-    destruct (covered_step lo hi o b Hco Hl Hw Hpo) as (b1 & E & W1 & L1).
-    destruct (IH b1 Hcr L1 W1 (Hpr b1 E)) as (b2 & E2 & W2).
-    exists b2. rewrite (run_ops_cons o r b b1 E). auto.
-Qed.
-
-(* no covered operation panics (or runs out of fuel) under WF and its precondition *)
-Lemma buffer_ops_no_panic_lemma lo hi o b : covered o = true -> (level b =? 2) = false -> WF lo hi b = true -> pre o b = true ->
-  total (run_op o b).
-Proof.
-  intros Hc Hl Hw Hp. destruct (covered_step lo hi o b Hc Hl Hw Hp) as (b' & E & _). rewrite E. exact I.
-Qed.
-
 (* any write of glyph flags through setGlyphFlags records bsfHasGlyphFlags (otherwise propagateFlags would skip them) *)
 Lemma set_glyph_flags_records b m s e i f b' : set_glyph_flags b m s e i f = Ok b' -> b' = b \/ has_gf b' = true.
 Proof.
@@ -713,8 +657,6 @@ Proof.
   { apply (run_eq_app_all c (rev l2) (rev l1)). rewrite zlen_rev, L. subst k. rewrite E, rev_app_distr. lia. }
   rewrite Forall_forall in *. intros g Hg. apply H. apply in_rev in Hg. exact Hg.
 Qed.
-
-Lemma delete_glyph_survives_or_not (b : buffer) : True. Proof. exact I. Qed.
 
 Lemma last_in (l : list glyph) : l <> [] -> In (last l g0) l.
 Proof.
